@@ -175,7 +175,7 @@ fn cohort_fields(w: &mut World, key: &str, m: &mut Map<String, Value>) {
             }
             _ => {
                 // mostly channel-like names; sometimes values a careless normalisation would change
-                let n = w.draws.draw(&format!("{key}/{f}.v"), 10);
+                let n = w.draws.draw(&format!("{key}/{f}.v"), 11);
                 let v = match n {
                     0..=3 => format!("{f}-{n}"),
                     4 => "  padded value  ".to_string(),
@@ -183,7 +183,9 @@ fn cohort_fields(w: &mut World, key: &str, m: &mut Map<String, Value>) {
                     6 => "1:1:".to_string(),
                     7 => "caf\u{e9}-\u{4e2d}".to_string(),
                     8 => "q\"uote\\slash".to_string(),
-                    _ => "x".repeat(1100),
+                    9 => "x".repeat(1100),
+                    // longer than the protocol's 1024 bytes, with a two-byte character across that boundary
+                    _ => format!("{}\u{e9}tail", "y".repeat(1023)),
                 };
                 m.insert(f.to_string(), json!(v));
             }
@@ -590,11 +592,13 @@ pub fn byzantine(doc: &mut Value, which: u64) -> Option<String> {
 }
 
 pub fn garbage_body(w: &mut World, key: &str) -> Vec<u8> {
-    match w.draws.draw(&format!("{key}/garbage.kind"), 12) {
+    match w.draws.draw(&format!("{key}/garbage.kind"), 14) {
         8 => b")]}'".to_vec(),
         9 => b")]}".to_vec(),
         10 => b")]}'X{\"response\":{\"protocol\":\"3.0\",\"app\":[]}}".to_vec(),
         11 => b")]}'\n)]}'\n{}".to_vec(),
+        12 => b"<html><head><title>Sign in</title></head><body>captive portal</body></html>".to_vec(),
+        13 => b"  \n<?xml version=\"1.0\"?><response protocol=\"3.0\"/>".to_vec(),
         0 => vec![],
         1 => {
             let n = 1 + w.draws.draw(&format!("{key}/garbage.len"), 200) as usize;
@@ -740,6 +744,11 @@ pub fn deliver(w: &mut World, id: u64, label: &str) {
         }
         headers = vec![("content-type".to_string(), b"application/json".to_vec())];
         let ra = w.profile.net.retry_after;
+        // the standard Retry-After header (a load balancer's) is not the protocol's X-Retry-After
+        if w.draws.chance(&format!("{label}/plain_retry_after"), ra / 2) {
+            headers.push(("retry-after".to_string(), b"120".to_vec()));
+            w.stat("net.standard_retry_after_header");
+        }
         // (a service that is simply down sends no header at all, for as long as it is down)
         if !w.server.outage_plain && w.draws.chance(&format!("{label}/retry_after"), ra) {
             let (v, class) = retry_after_value(w, label);
@@ -794,6 +803,13 @@ pub fn deliver(w: &mut World, id: u64, label: &str) {
                 grammatical = None;
                 tamper = format!("body_bitflip@{pos}.{bit}");
             }
+        }
+        8 if w.draws.draw(&format!("{label}/trunc.or_extend"), 4) == 3 => {
+            // the opposite of a truncation: bytes after the end of a complete document
+            let junk: &[u8] = [&b"}"[..], &b" x"[..], &b"\0"[..], &b"{}"[..], &b")]}'\n"[..], &b"\xff\xfe"[..]][w.draws.draw(&format!("{label}/extend.v"), 6) as usize];
+            body.extend_from_slice(junk);
+            grammatical = None;
+            tamper = "body_extended".to_string();
         }
         8 => {
             if !body.is_empty() {
